@@ -18,6 +18,10 @@ CHECKS = {
   text="Solver-decided, bounded: from an arbitrary invariant-satisfying machine (all 12 phases x staging/current shapes, symbolic state leaves) each of the 17 operations returns nil exactly when the reference automaton written from the method documentation enables it, then reaches the documented phase with the documented effect, and otherwise leaves phase, staging and current transaction (identity, slots and contents) unchanged; never panics for indices below N.",
   note="Trusted: go/ssa lowering, interpreter (translator-validated), z3; reference automaton of DESIGN.md Appendix A.2; ideal signatures.",
   ref="DESIGN.md §3 C09, Appendix A.2"),
+ "C13": dict(
+  text="Solver-decided, bounded: every native decoder entry point, run on a fully symbolic buffer of every length up to L and on valid encodings with an arbitrary 4-byte window (plus truncation), never panics, never allocates more than 65536 elements from an unread length field, and on success the declared counts are within the documented limits (lengths read from the wire are symbolic: make(n) forks into exact small lengths and a symbolic-length class); the protobuf serializer's Decode is run on generated structs with one arbitrary deviation each. Known findings F2b (unbounded 32-bit lengths in address maps/arrays and AuthResponse) and F3pb (unknown backend key in protobuf) are reported as KNOWN-FINDING; six genuine defects found this way were repaired by fix: commits.",
+  note="Trusted: go/ssa lowering, interpreter (translator-validated incl. native allocation proxy), z3; proto.Marshal/Unmarshal modelled by contract.",
+  ref="DESIGN.md §3 C13"),
  "C14": dict(
   text="Solver-decided, bounded: for every value type and all 17 message types within the shape bounds (all leaves symbolic) the real Encode followed by the real Decode succeeds, yields a value equal under an independent field-by-field comparator (and under the repository's Equal), consumes exactly its bytes (3 arbitrary trailing bytes stay), and re-encodes to the same bytes; two envelopes back to back decode in order; the protobuf serializer (From*/To*, framing) returns an equal message that re-encodes natively to the same bytes; the BigInt codec is covered for every length 0..129.",
   note="Trusted: go/ssa lowering, interpreter (translator-validated natively incl. the real protobuf library), z3; proto.Marshal/Unmarshal modelled by contract.",
